@@ -386,7 +386,16 @@ def mon_C05(rng, budget, tier):
             keys = _keys_or_default(c)
             case = {"clause": "first/last/shares", "kind": kind, "st": st, "nums": nums, "keys": keys, "tau": tau}
             mon.case(case)
-            res = rate_nums(kind, st, nums, ranks=("L", [_num_val(k) for k in keys]), tau=tau)
+            # the outcome goes in the way the case has it: as ranks or as scores, with the case's own values (floats of very
+            # different magnitude, huge ints, bools ...): the placing the caller describes is what "first" and "last" mean
+            if scores != OMIT and scores[0] == "L" and scores[1] and not (ranks != OMIT and ranks[0] == "L" and ranks[1]):
+                case["outcome_as"] = "scores"
+                res = rate_nums(kind, st, nums, scores=scores, tau=tau)
+            elif ranks != OMIT and ranks[0] == "L" and ranks[1]:
+                case["outcome_as"] = "ranks"
+                res = rate_nums(kind, st, nums, ranks=ranks, tau=tau)
+            else:
+                res = rate_nums(kind, st, nums, ranks=("L", [_num_val(k) for k in keys]), tau=tau)
             infl = _inflated(nums, eff_tau(st, tau))
             d = _dmu(nums, res)
             best, worst = min(keys), max(keys)
@@ -761,6 +770,63 @@ def _predict_game(rng, kind=None, max_teams=8):
     return st, nums
 
 
+def _free_running_predict_stress(mon, rng, ops, seconds):
+    """several threads, free running with a short switch interval, call the predictions on ONE shared model object for
+    lobbies of different sizes; every call must return what the same call returns alone.  A stress test: it can miss a race,
+    it cannot raise a false alarm (state kept on the model, in module globals or in class attributes between the steps of a
+    call is what it looks for)."""
+    if mon.full:
+        return
+    kind = KINDS[rng.randrange(5)]
+    st = gen.gen_state(rng)
+    m = make_model(kind, st)
+    jobs = []
+    for n in (2, 8, 3, 5, 2, 4):
+        shape = [rng.choice([1, 2, 4, 8]) for _ in range(n)]
+        nums = gen.gen_teams_num(rng, st, shape, ints=False)
+        tv = teams_val(kind, nums)
+        for op in ops:
+            jobs.append((op, tv, nums))
+    f = {"pwin": "predict_win", "pdraw": "predict_draw", "prank": "predict_rank"}
+    want = [repr(getattr(make_model(kind, st), f[op])(to_python(tv))) for op, tv, _ in jobs]
+    bad = []
+    stop = threading.Event()
+    old_si = sys.getswitchinterval()
+
+    def work(k):
+        j = k
+        while not stop.is_set() and not bad:
+            op, tv, nums = jobs[j % len(jobs)]
+            try:
+                got = repr(getattr(m, f[op])(to_python(tv)))
+            except Exception as ex:  # noqa: BLE001
+                bad.append((j % len(jobs), "raised %s: %s" % (type(ex).__name__, ex)))
+                return
+            if got != want[j % len(jobs)]:
+                bad.append((j % len(jobs), got))
+            j += 5
+    try:
+        sys.setswitchinterval(1e-6)
+        ths = [threading.Thread(target=work, args=(k,)) for k in range(4)]
+        for th_ in ths:
+            th_.start()
+        stop.wait(seconds)
+        stop.set()
+        for th_ in ths:
+            th_.join(10)
+    finally:
+        sys.setswitchinterval(old_si)
+    case = {"clause": "concurrent calls on one shared model", "kind": kind, "st": st, "threads": 4,
+            "lobbies": [[len(t) for t in nums] for _, _, nums in jobs[:6]]}
+    mon.case(case)
+    mon.count("concurrent stress")
+    if bad:
+        j, got = bad[0]
+        case["nums"] = jobs[j][2]
+        mon.fail("concurrent calls return what the same call returns alone", case,
+                 "%s on lobby %s: %s under concurrency, %s alone" % (jobs[j][0], [len(t) for t in jobs[j][2]], str(got)[:200], want[j][:200]))
+
+
 def _same_objects_probe(mon, rng, ops, n):
     """the very same rating objects are shown to the predictions again after their numbers changed (assigned by the caller,
     or updated in place by rate): the answer must be the one fresh objects with the new numbers get - nothing derived from
@@ -780,6 +846,16 @@ def _same_objects_probe(mon, rng, ops, n):
         try:
             for op in ops:
                 f[op](objs)
+            if len(objs) >= 3:
+                # the same model is shown the same teams in a smaller lobby (the last team has left): nothing remembered per
+                # pair of teams in the lobby of n may be replayed in the lobby of n - 1
+                sub = {"kind": kind, "st": st, "nums": nums[:-1], "sequence": ["predict_* on %d teams" % len(nums), "predict_* on the first %d of them, same model object" % (len(nums) - 1)]}
+                mon.case(sub, True)
+                for op in ops:
+                    got = f[op](objs[:-1])
+                    want = call_predict(op, kind, st, nums[:-1], model=make_model(kind, st))
+                    if repr(got) != repr(want):
+                        mon.fail("same model object, smaller lobby", sub, "%s: %s; a fresh model gives %s" % (op, str(got)[:200], str(want)[:200]))
             if how == "rate":
                 m.rate(objs, ranks=[rng.randrange(3) for _ in objs])
             else:
@@ -790,6 +866,12 @@ def _same_objects_probe(mon, rng, ops, n):
             now = [[(pl.mu, pl.sigma) for pl in t] for t in objs]
             case["nums_now"] = now
             mon.case(case, True)
+            if len(objs) >= 3 and k % 2 == 0:
+                # the same model object is then shown a lobby with one team fewer (the same teams otherwise): nothing
+                # remembered per pair of teams may be replayed in a lobby of another size
+                objs, now = objs[:-1], now[:-1]
+                case["then"] = "the last team leaves the lobby"
+                case["nums_now"] = now
             for op in ops:
                 got = f[op](objs)
                 want = call_predict(op, kind, st, now, model=make_model(kind, st))
@@ -805,6 +887,7 @@ def _same_objects_probe(mon, rng, ops, n):
 def mon_C09(rng, budget, tier):
     mon = Mon("C09")
     _same_objects_probe(mon, rng, ("pwin",), max(20, budget // 150))
+    _free_running_predict_stress(mon, rng, ("pwin",), 2.5 if tier == "quick" else 10.0)
     i = 0
     while mon.evaluations < budget and not mon.full:
         kind = KINDS[i % 5]
@@ -921,6 +1004,7 @@ def mon_C09(rng, budget, tier):
 def mon_C10(rng, budget, tier):
     mon = Mon("C10")
     _same_objects_probe(mon, rng, ("pdraw",), max(20, budget // 150))
+    _free_running_predict_stress(mon, rng, ("pdraw",), 2.5 if tier == "quick" else 10.0)
     i = 0
     while mon.evaluations < budget and not mon.full:
         kind = KINDS[i % 5]
@@ -998,6 +1082,7 @@ def mon_C10(rng, budget, tier):
 def mon_C11(rng, budget, tier):
     mon = Mon("C11")
     _same_objects_probe(mon, rng, ("prank",), max(20, budget // 150))
+    _free_running_predict_stress(mon, rng, ("prank",), 2.5 if tier == "quick" else 10.0)
     i = 0
     while mon.evaluations < budget and not mon.full:
         kind = KINDS[i % 5]
@@ -1012,6 +1097,27 @@ def mon_C11(rng, budget, tier):
             if n >= 4 and rng.random() < 0.5:
                 c_, = rng.sample([x for x in range(n) if x not in (a, b)], 1)
                 nums[c_] = list(nums[a])
+        if mode in (2, 3) and n >= 2:      # two teams one or two ulps apart in one member's mu: their probabilities may come out
+            # bit-equal (then they must share a rank) although nothing upstream of the final division is equal
+            a, b = rng.sample(range(n), 2)
+            tb = list(nums[a])
+            j_ = rng.randrange(len(tb))
+            mu_, sg_ = tb[j_]
+            if rng.random() < 0.15:
+                mu_ = mu_ * rng.choice([1e-2, 1e-4])
+            tb[j_] = (math.nextafter(mu_, math.inf) if rng.random() < 0.5 else math.nextafter(math.nextafter(mu_, -math.inf), -math.inf), sg_)
+            nums[a] = [(mu_ if jj == j_ else m_, s_) for jj, (m_, s_) in enumerate(nums[a])]
+            nums[b] = tb
+            if rng.random() < 0.15:
+                # a whole lobby of near-copies: every team is team a with one member's mu moved by -2 .. +2 ulps
+                base = list(nums[a])
+                for q in range(n):
+                    tq = list(base)
+                    m_, s_ = tq[j_]
+                    for _ in range(abs(d_ := rng.randint(-2, 2))):
+                        m_ = math.nextafter(m_, math.inf if d_ > 0 else -math.inf)
+                    tq[j_] = (m_, s_)
+                    nums[q] = tq
         share = rng.random() < 0.3
         case = {"kind": kind, "st": st, "nums": nums, "share": share}
         mon.case(case, n > 2)
@@ -1085,6 +1191,26 @@ def spec_predict(st, nums):
 
 def mon_C12(rng, budget, tier):
     mon = Mon("C12")
+    # the closed forms also hold for calls made from several threads on one shared model object (different lobbies at once)
+    for it in range(max(5, budget // 400)):
+        if mon.full:
+            break
+        kind = KINDS[it % 5]
+        st = gen.gen_state(rng)
+
+        def mk(k, kind=kind, st=st):
+            _, nums = _predict_game(rng, max_teams=5)
+            tv = teams_val(kind, nums)
+            op = ("pwin", "pdraw", "prank")[(it + k) % 3]
+            want = call_predict(op, kind, st, tv, model=make_model(kind, st))
+
+            def thunk(m, tv=tv, op=op):
+                return {"pwin": m.predict_win, "pdraw": m.predict_draw, "prank": m.predict_rank}[op](to_python(tv))
+
+            def chk(r, want=want, op=op):
+                return None if repr(r) == repr(want) else "%s returned %s, the same call alone %s" % (op, str(r)[:200], str(want)[:200])
+            return thunk, chk, {"op": op, "nums": nums}
+        threads_probe(mon, rng, kind, st, mk, nthreads=rng.choice([2, 3]))
     i = 0
     betas_seen = set()
     while mon.evaluations < budget and not mon.full:
@@ -1566,7 +1692,11 @@ def mon_C15(rng, budget, tier):
                 j = rng.randrange(len(nums[z]))
                 nums[z] = [(mu, 0.0 if jj == j else sg) for jj, (mu, sg) in enumerate(nums[z])]
         beta = st["beta"]
-        for t in [("I", 0), ("F", 0.0), ("F", 1e-200 * beta), ("F", 1e-9 * beta), ("F", beta / 50.0), ("F", 3.0 * beta)]:
+        # two of the taus are doubles with t ** 2 != t * t: only those tell a per-call path that squares tau one way from
+        # a model-level path that squares it the other way
+        for t in [("I", 0), ("F", 0.0), ("F", 1e-200 * beta), ("F", 1e-9 * beta), ("F", beta / 50.0), ("F", 3.0 * beta),
+                  ("F", gen.pow_sensitive(rng, 0.01 * beta, 2 * beta)), ("F", gen.pow_sensitive(rng, 2 * beta, 400 * beta)),
+                  ("F", rng.uniform(0, 10) * beta)]:
             for b in [OMIT, ("B", True), ("B", False)]:
                 case = {"kind": kind, "st": st, "nums": nums, "ranks": ranks, "scores": scores, "tau": t, "lim": b}
                 mon.case(case, True)
@@ -1965,9 +2095,52 @@ def _norm_sig(kind, f):
         "bradley_terry_part.", "").replace("thurstone_mosteller_full.", "").replace("thurstone_mosteller_part.", "")
 
 
+def _multi_defect_args(kind):
+    """arguments with TWO things wrong at once: which exception class comes out depends on the order of the validation steps,
+    and the five classes share that order (C19: 'the same exception class')"""
+    R, other = RATING[kind], RATING[gen.KINDS[(gen.KINDS.index(kind) + 1) % 5]]
+    r = lambda: R(25.0, 8.0)      # noqa: E731
+    return [
+        ("one team, and it holds a number", lambda: ([[21]], {})),
+        ("one team, which is a number", lambda: ([21], {})),
+        ("one team, which is a tuple of ratings", lambda: ([(r(), r())], {})),
+        ("one team of a foreign model's rating", lambda: ([[other(25.0, 8.0)]], {})),
+        ("one empty team", lambda: ([[]], {})),
+        ("two teams, one empty and one holding a string", lambda: ([[], ["x"]], {})),
+        ("a team that is a string beside an empty team", lambda: (["ab", []], {})),
+        ("teams fine, ranks of wrong length holding a string", lambda: ([[r()], [r()]], {"ranks": ["a"]})),
+        ("teams fine, ranks and scores both given and both malformed", lambda: ([[r()], [r()]], {"ranks": ["a", 1], "scores": [1]})),
+        ("too few teams and malformed ranks", lambda: ([[r()]], {"ranks": ["a"]})),
+        ("foreign rating and ranks of wrong length", lambda: ([[r()], [other(25.0, 8.0)]], {"ranks": [1]})),
+        ("teams is a tuple, ranks a tuple", lambda: (([r()], [r()]), {"ranks": (1, 2)})),
+        ("empty team and scores holding None", lambda: ([[r()], []], {"scores": [1, None]})),
+    ]
+
+
 def mon_C19(rng, budget, tier):
     mon = Mon("C19")
     _same_objects_probe(mon, rng, ("pwin", "pdraw", "prank"), max(20, budget // 100))
+    n_args = len(_multi_defect_args("PL"))
+    for a in range(n_args):
+        for op in ("rate", "predict_win", "predict_draw", "predict_rank"):
+            outs = {}
+            desc = None
+            for k in KINDS:
+                desc, mk = _multi_defect_args(k)[a]
+                teams, kw = mk()
+                if op != "rate" and kw:
+                    continue
+                try:
+                    getattr(MODEL[k](), op)(teams, **kw)
+                    outs[k] = "returned"
+                except Exception as ex:  # noqa: BLE001
+                    outs[k] = type(ex).__name__
+            if not outs:
+                continue
+            case = {"clause": "same exception class", "op": op, "argument": desc}
+            mon.case(case, True)
+            if len(set(outs.values())) != 1:
+                mon.fail("same exception class across the five models", case, repr(outs))
     # signatures / operations
     pub = lambda cls: sorted(n for n in dir(cls) if not n.startswith("_") and callable(getattr(cls, n)))  # noqa: E731
     ref_ops = pub(MODEL["PL"])
@@ -2208,6 +2381,12 @@ def mon_C20(rng, budget, tier):
                 for j, x in enumerate(ids_):
                     A[x] = ra[t][j]
                     store[x] = (rb[t][j].mu, rb[t][j].sigma)
+            # a league driven by random outcomes with per-game tau up to 3 beta can leave the supported numeric range
+            # (|mu| <= 20 beta, sigma <= 10 beta) within a few dozen games; outside it the properties make no claim (the dead
+            # _sum_q call of the full-pairing models overflows there): the league ends (same rule as the C06 leagues)
+            if any(abs(mu_) > 20 * st["beta"] or sg_ > 10 * st["beta"] for mu_, sg_ in store):
+                mon.count("league left the supported range after %d games" % (g + 1))
+                break
     return mon
 
 
